@@ -319,7 +319,20 @@ func runHist(ci interface{}, s *vkit.Stats) error {
 				vals[i] = res[i].Interface()
 			}
 			wasNil := ii.IsNil(v)
-			if pv := guard(func() { builders[bi].Interface(ii.Var(v)).Method(m.Name).As(bad).Return(vals...) }); pv == nil {
+			if pv := guard(func() {
+				// a fresh lookup, with the same bookkeeping as for well-formed instructions: it supersedes handles kept from before a Reset
+				im := builders[bi].Interface(ii.Var(v))
+				ik := keptKey{bi, v, -1}
+				if old, ok := keptI[ik]; ok && old != im {
+					for k := range keptM {
+						if k.b == bi && k.v == v {
+							delete(keptM, k)
+						}
+					}
+				}
+				keptI[ik] = im
+				im.Method(m.Name).As(bad).Return(vals...)
+			}); pv == nil {
 				s.Exclude("stub-with-an-extra-parameter-was-accepted(property C13 judges that)")
 				return nil
 			}
